@@ -54,4 +54,21 @@ PROPS = {
             "Hardware.__or__/__ior__ (deepcopy) are not under contract",
         ],
     },
+    "C20": {
+        "category": "proof",
+        "harness_modes": ["crosscheck"],
+        "explanation": "Every mutator of DirectedGraph/DirectedAcyclicGraph (_add_node, add, remove_nodes, remove_node, replace, promote_to_source) is proved to "
+        "preserve the representation invariant (same key set, successor and predecessor views mirror each other, edges inside N) and to transform the abstract "
+        "view (N, E) exactly: add adds the node(s) and the edge and nothing else; replace renames the node preserving every edge (self loops included), is a no-op "
+        "for a missing node and raises ValueError leaving the graph unchanged when the new node exists; remove_nodes removes exactly the returned duplicate-free list and "
+        "every edge touching it, removes every requested node that exists, and (when pruning) leaves no survivor that lost a successor without successors; "
+        "promote_to_source removes exactly the incoming edges plus the returned ancestors under the same completeness clause. The three nested loops of "
+        "remove_nodes carry inductive invariants (set iteration in arbitrary order). Queries (contains, get_nodes, successors, predecessors, empty, get_sources, get_sinks) "
+        "are proved equal to the view. NOT proved: minimality of the pruned set (that nothing beyond requested nodes and dead-end ancestors is removed) and "
+        "in_degree/out_degree (set cardinality is abstract); GraphMapper's map consistency.",
+        "assumptions": [
+            "nodes are modelled as integers (only equality and hashing are used by the code)",
+            "A-SET-ORDER iteration over a set / list(aset) visits each element once in an arbitrary order; the iterated set is not mutated during the loop (true here: the bodies write other dict entries)",
+        ],
+    },
 }
